@@ -322,13 +322,13 @@ def run(rep, ctx):
     # installations made by the constructor itself or by a helper it calls (arguments resolved into the constructor's terms)
     reached = list(reach_calls(F, c, lambda n: n["k"] == "CallExpr" and n.get("callee") in ("signal", "std::signal")))
     inst = []
-    for anchor, call, res in reached:
+    for anchor, call, res, _own in reached:
         if anchor not in inst:
             inst.append(anchor)
     if not inst:
         raise AnalysisBroken("no std::signal call in the SignalHandler constructor")
     signos = set()
-    for anchor, call, res in reached:
+    for anchor, call, res, _own in reached:
         a = call_args(call)
         hd = render(res(a[1]))
         sg = cv(res(a[0]))
